@@ -326,7 +326,7 @@ func (w *World) Exec(a Action) {
 			w.T.Fatalf("staking EndBlocker: %v", err)
 		}
 		w.checkTriggerAfterStakingEndBlock(before)
-		w.envSync(before, false)
+		w.envSync(before, true)
 		class, oracle, _ := w.runBranch(func(ctx sdk.Context) error {
 			return alliance.EndBlocker(ctx, w.App.AllianceKeeper)
 		}, keepOnOK)
@@ -404,7 +404,7 @@ func (w *World) Exec(a Action) {
 				w.T.Fatalf("allocate: %v", err)
 			}
 		}
-		w.envSync(before, false)
+		w.envSync(before, true)
 	case "donate":
 		before := w.envBefore()
 		coins := parseCoins(a.Coins)
